@@ -221,6 +221,7 @@ def run(R, tier, seed, driver_ok):
             scale = max(np.abs(want).max(), 1e-300)
             if np.abs(got - want).max() > tol * scale:
                 R.violation(f'RCA/{tag}', f'RCA (chunklets of sizes {sorted(sizes.tolist())}): learned distances change under {tag} (max relative deviation {np.abs(got - want).max() / scale:.3g})', case)
+    large_itml_probe(R, rng)
     if driver_ok and lines:
         outs = lean_run(lines)
         for i, mt in enumerate(meta):
@@ -230,6 +231,27 @@ def run(R, tier, seed, driver_ok):
             if a is None or b is None or np.abs(a - b).max() > 1e-12 * max(np.abs(a).max(), 1e-300):
                 R.broken('correspondence:C19:cov-translate', 'the model covariance changes under a dyadic translation', {'line': i})
         R.extra['traces_validated_against_impl'] = len(lines)
+
+
+def large_itml_probe(R, rng):
+    """ITML on a pair set with more than a thousand distinct points (default bounds: percentiles over all of them): an
+    orthogonal map of the data — a rotation, a permutation of the features — maps the learned matrix to QᵀMQ"""
+    from metric_learn import ITML
+    d, npairs = 3, 720
+    P = np.round(rng.randn(npairs, 2, d) * 64) / 16.0
+    P[:, 1] += np.where(rng.rand(npairs, 1) < 0.5, 0.25, 3.0)
+    yy = np.where(np.linalg.norm(P[:, 0] - P[:, 1], axis=1) < np.median(np.linalg.norm(P[:, 0] - P[:, 1], axis=1)), 1, -1)
+    sd = int(rng.randint(1 << 30))
+    with warnings.catch_warnings():
+        warnings.simplefilter('ignore')
+        M0 = ITML(max_iter=25, random_state=sd).fit(P, yy).get_mahalanobis_matrix()
+        for tag, Q in (('feature-permutation', np.eye(d)[:, [2, 0, 1]]), ('rotation', np.linalg.qr(rng.randn(d, d))[0])):
+            R.case(('c19-large-itml', tag, P.tobytes().hex()[:40]), True, sample={'est': 'ITML', 'relation': tag, 'distinct_points': int(len(np.unique(P.reshape(-1, d), axis=0)))}, branch='large-data-' + tag)
+            M2 = ITML(max_iter=25, random_state=sd).fit(P.dot(Q), yy).get_mahalanobis_matrix()
+            want = Q.T.dot(M0).dot(Q)
+            rel_ = np.abs(M2 - want).max() / max(np.abs(want).max(), 1e-300)
+            if rel_ > 1e-5:
+                R.violation('ITML/rotation', f'ITML on {len(np.unique(P.reshape(-1, d), axis=0))} distinct points: M learned on data mapped through an orthogonal Q ({tag}) differs from QᵀMQ by {rel_:.3g} (relative)', {'est': 'ITML', 'relation': tag, 'pairs': P[:50], 'n_pairs': npairs})
 
 
 def replay(R, obj):
